@@ -439,9 +439,8 @@ def r6_tables_agree(ctx):
     # the type loop takes the first type that claims the pair
     q = "src/scinumtools/units/quantity.py"
     fn = ctx.fn(q, "Quantity._convert")
-    loops = [n for n in fn.body if isinstance(n, ast.For)]
-    ok = len(loops) == 1 and norm(loops[0].iter) == "UNIT_TYPES" and any(isinstance(x, ast.Return) for x in ast.walk(loops[0])) \
-        and any(isinstance(x, ast.Raise) for x in loops[0].orelse)
+    fl = K.first_claim_loop(fn)
+    ok = fl is not None and fl["iter"] == "UNIT_TYPES" and fl["claimed_all_return"] and fl["falls_through"] and fl["exhausted_raises"]
     ctx.form(ok, q, "Quantity._convert", "first claiming type converts; no claiming type is an error")
 
 
